@@ -630,7 +630,8 @@ def run_cases(ck, hb, db, cases, label, batch=60, hist=8, text=True):
             ck.report_failure(label, h, im, mo, [o])
     ck.cov["evaluations"] += len(cases)
     C["kernels_" + label] = C.get("kernels_" + label, 0) + len(cases)
-    # ---- text level
+    # ---- text level (reported last: a concrete failing input from the execution oracle is worth more)
+    text_fails = []
     sources = {}
     nerr = 0
     for c in cases:
@@ -644,9 +645,8 @@ def run_cases(ck, hb, db, cases, label, batch=60, hist=8, text=True):
             sources[c.kid] = {m: s for m, s in d.items() if m != "okl"}
             if " ERR" in body:
                 C["partly_rejected_" + label] = C.get("partly_rejected_" + label, 0) + 1
-        if text and body != flat_model[c.op] and len(ck.violations) < 10:
-            a, b = first_seg_diff(body, flat_model[c.op])
-            ck.report_failure(label + "-text", [c.op], [a], [b], [])
+        if text and body != flat_model[c.op]:
+            text_fails.append((c, first_seg_diff(body, flat_model[c.op])))
     C["rejected_by_translator_" + label] = C.get("rejected_by_translator_" + label, 0) + nerr
     # ---- execution
     emu = Emu(ck, label)
@@ -722,7 +722,7 @@ def run_cases(ck, hb, db, cases, label, batch=60, hist=8, text=True):
             if got != pred:
                 impl_obs.append("%s: %s" % (m, fmt(got)))
                 model_obs.append("%s: %s" % (m, fmt(pred if pred is not None else "MISSING")))
-        if (oracles or impl_obs) and len(ck.violations) < 10:
+        if (oracles or impl_obs) and len(ck.violations) < 8:
             ck.report_failure(label, [c.op, "V " + vals_line(v)], impl_obs or ["(as the model)"], model_obs or ["(as the implementation)"],
                               [compress_oracles(oracles)] if oracles else [])
     # ---- declared vs. actual work-group size (a CUDA/HIP launch with more threads per block than
@@ -757,6 +757,9 @@ def run_cases(ck, hb, db, cases, label, batch=60, hist=8, text=True):
                 ck.report_failure(label, [c.op, "V " + vals_line(v)], ["(launch would fail on the device)"], ["(n/a)"], ["; ".join(bad)])
                 break
     C["kernels_with_declared_group_size_" + label] = nb
+    C["text_mismatches_" + label] = C.get("text_mismatches_" + label, 0) + len(text_fails)
+    for c, (a, b) in text_fails[:3]:
+        ck.report_failure(label + "-text", [c.op], [a], [b], [])
     C["value_tuples_" + label] = C.get("value_tuples_" + label, 0) + len(keys)
     C["nonempty_runs_" + label] = C.get("nonempty_runs_" + label, 0) + nonempty
     ck.cov["distinct_nontrivial"] += distinct
